@@ -363,6 +363,59 @@ def c_disambiguate(ctx, case):
         ctx.fail("C20.disambiguate", case, "survivor",
                  f"renamed identifiers {sorted(left & renamed)} still occur in the second stream")
     ctx.count("identifiers_renamed", len(renamed))
+    # the same second stream written with ONE object wherever it has equal sub-expressions (an
+    # in-place update u[i] <- u[i] + ... with one u[i] node; a guard shared by statements)
+    Bs, nshared = _shared_stream(B)
+    if nshared:
+        ctx.count("streams_with_shared_nodes")
+        try:
+            B3, subst3 = disambiguate_identifiers(A, Bs, filt)
+            if set(subst3) != renamed or [skey(s_) for s_ in B3] != [
+                    (type(o).__name__, o.id, tuple(sorted(o.depends_on)),
+                     normal.typed_key(refsub(getattr(o, "lhs", None), list(subst3.items()))),
+                     normal.typed_key(refsub(getattr(o, "rhs", None), list(subst3.items()))),
+                     normal.typed_key(refsub(getattr(o, "condition", None), list(subst3.items()))))
+                    for o in B]:
+                ctx.fail("C20.disambiguate", case, "shared-nodes",
+                         f"second stream {[sstr(s_) for s_ in B]} written with one object per distinct "
+                         f"sub-expression: renamed to {[sstr(s_) for s_ in B3]} under {subst3}; not "
+                         f"the consistent renaming")
+                return
+        except Exception as ex:  # noqa: BLE001
+            ctx.fail("C20.disambiguate", case, f"shared-nodes:raised:{type(ex).__name__}", str(ex))
+            return
+    # attribute look-ups whose ATTRIBUTE NAME spells a clashing identifier (cfg.n next to n):
+    # the attribute name is not an identifier and stays
+    if names_b:
+        nm = sorted(names_b)
+        Bl = []
+        for k, o in enumerate(B):
+            if hasattr(o, "rhs"):
+                extra = p.Sum((o.rhs, p.Lookup(p.Variable("zz_cfg"), nm[k % len(nm)]),
+                               p.Lookup(p.Lookup(p.Variable(nm[(k + 1) % len(nm)]), nm[k % len(nm)]), "zz_attr")))
+                kw = dict(lhs=o.lhs, rhs=extra, id=o.id, depends_on=o.depends_on)
+                if isinstance(o, ConditionalAssignment):
+                    kw["condition"] = o.condition
+                Bl.append(type(o)(**kw))
+            else:
+                Bl.append(o)
+        ctx.count("streams_with_lookups")
+        try:
+            B4, subst4 = disambiguate_identifiers(A, Bl, filt)
+            sm4 = list(subst4.items())
+            for o, new in zip(Bl, B4):
+                want = (type(o).__name__, o.id, tuple(sorted(o.depends_on)),
+                        normal.typed_key(refsub(getattr(o, "lhs", None), sm4)),
+                        normal.typed_key(_rename_vars(getattr(o, "rhs", None), subst4)),
+                        normal.typed_key(refsub(getattr(o, "condition", None), sm4)))
+                if skey(new) != want:
+                    ctx.fail("C20.disambiguate", case, f"lookup-attribute:{type(o).__name__}",
+                             f"{sstr(o)} became {sstr(new)} under renaming {subst4}: identifiers are "
+                             f"renamed, attribute names of look-ups are not identifiers")
+                    return
+        except Exception as ex:  # noqa: BLE001
+            ctx.fail("C20.disambiguate", case, f"lookup-attribute:raised:{type(ex).__name__}", str(ex))
+            return
     # the combined entry point must agree with the two steps
     try:
         fused, subst2, idmap = disambiguate_and_fuse(A, B, filt)
@@ -373,6 +426,52 @@ def c_disambiguate(ctx, case):
             check_fusion(ctx, case, A, disambiguate_identifiers(A, B, filt)[0], fused, idmap, "combined")
     except Exception as ex:  # noqa: BLE001
         ctx.fail("C20.disambiguate", case, f"combined-raised:{type(ex).__name__}", str(ex))
+
+
+def _rename_vars(e, subst):
+    """independent model: Variables renamed by name, everything else (attribute names of
+    look-ups included) rebuilt as it is"""
+    import dataclasses
+    if isinstance(e, p.Variable):
+        return subst.get(e.name, e)
+    if isinstance(e, tuple):
+        return tuple(_rename_vars(c, subst) for c in e)
+    if isinstance(e, p.Expression) and dataclasses.is_dataclass(e):
+        return type(e)(*[_rename_vars(getattr(e, f.name), subst) for f in dataclasses.fields(e)])
+    return e
+
+
+def _shared_stream(B):
+    """the stream with structurally (type-strictly) equal composite sub-expressions represented
+    by ONE object, across lhs, rhs, condition and statements; how many places now share"""
+    import dataclasses
+    seen = {}
+    n = [0]
+
+    def intern(e):
+        if isinstance(e, tuple):
+            return tuple(intern(c) for c in e)
+        if not isinstance(e, p.Expression) or not dataclasses.is_dataclass(e):
+            return e
+        e2 = type(e)(*[intern(getattr(e, f.name)) if isinstance(getattr(e, f.name), (p.Expression, tuple))
+                       else getattr(e, f.name) for f in dataclasses.fields(e)])
+        k = normal.typed_key(e2)
+        if k in seen:
+            if not isinstance(e2, p.Variable):
+                n[0] += 1
+            return seen[k]
+        seen[k] = e2
+        return e2
+    out = []
+    for o in B:
+        if hasattr(o, "rhs"):
+            kw = dict(lhs=intern(o.lhs), rhs=intern(o.rhs), id=o.id, depends_on=o.depends_on)
+            if isinstance(o, ConditionalAssignment):
+                kw["condition"] = intern(o.condition)
+            out.append(type(o)(**kw))
+        else:
+            out.append(o)
+    return out, n[0]
 
 
 def transitive_reduction(nodes, edges):
@@ -522,6 +621,8 @@ def workload(ctx):
                     ctx.case(("dot", tuple(order), tuple(sorted(edges))), n >= 2, n=0)
                     ctx.run("C20.dot", (list(order), edges))
         ctx.set_exhaustive("all DAGs on <= 5 nodes, forward and reversed listing")
+    ctx.floor("streams_with_shared_nodes", 50)
+    ctx.floor("streams_with_lookups", 1000)
     ctx.floor("long_chains", 60)
     ctx.floor("returned_stream_extended_in_place", 500)
     ctx.floor("long_streams", 15)
